@@ -36,7 +36,7 @@ func Specs() map[string]*PropSpec {
 	strFiles := []string{"memdb/string.go", "memdb/keys.go", "memdb/db.go", "memdb/concurrentmap.go", "memdb/command.go", "memdb/dblock.go", "server/db_manager.go"}
 	add(&PropSpec{ID: "C01", Files: strFiles,
 		Explanation: "Structural necessary conditions of the string/key command semantics, decided for every path of the executors in the anchor files: key and value bytes reach the keyspace unchanged (R9); every path returns a reply (R7); arity/option parsing cannot index outside the argument vector (R1); integer updates are overflow-guarded (R19); an error reply implies nothing was changed (R27); two argument keys that may be the same key are handled safely (R25); read-modify-write stays inside one lock hold (R15r); the named commands are registered (R0). Reply values against the Redis reference are not decided. A stored string is never written through (R9s) and asynchronous expiry re-validates the deadline under the key's stripe before it deletes (R17, timer goroutines included). Option values an executor parses into a local record are read afterwards (R29). Every value stored in the keyspace has one of the dynamic types the readers test for (R30); lock pairing and ordering of the string executors (R14p, R14o).",
-		Rules:       []RuleRef{registeredRule("set", "get", "mset", "mget", "setnx", "setex", "append", "strlen", "getrange", "setrange", "incr", "decr", "incrby", "decrby", "incrbyfloat", "del", "exists", "type", "rename", "keys", "ping"), rR9, rR7, rR1, rR19, rR25, rR27, rR15r, rR17, rR9s, rR29, rR30, rR14pair, rR14order, rR22w, rR31, rR20m, rR9m, rR32, rR30g, rR22m, rR20k, rR9k, rR11e, rR15, rR15m}})
+		Rules:       []RuleRef{registeredRule("set", "get", "mset", "mget", "setnx", "setex", "append", "strlen", "getrange", "setrange", "incr", "decr", "incrby", "decrby", "incrbyfloat", "del", "exists", "type", "rename", "keys", "ping"), rR9, rR7, rR1, rR19, rR25, rR27, rR15r, rR17, rR9s, rR29, rR30, rR14pair, rR14order, rR22w, rR31, rR20m, rR9m, rR32, rR30g, rR22m, rR20k, rR9k, rR11e, rR15, rR15m, rR13}})
 	add(&PropSpec{ID: "C02", Files: []string{"resp/", "server/db_manager.go", "logger/"},
 		Explanation: "Parser robustness and identity, decided on all paths: every index/slice in the parser is proven in range (R1) and every allocation sized from the wire is bounded (R4), so no byte stream can panic the parser goroutine; the connection is consumed only through complete-read primitives and the parser resets after an error (R11); bulk payloads are unmodified sub-slices cut by count (R9p); a protocol error closes the connection without dispatching anything and only well-formed arrays are dispatched (R12c). Exact decode equality for all chunkings is not decided. The parser closes its result channel only after the end-of-stream report or on a done context (R11c).",
 		Rules:       []RuleRef{rR1, rR4, rR11, rR9p, rR12c, rR11c, rR11m, rR31, rR11t, rR5, rR14pair, rR11d}})
@@ -54,13 +54,13 @@ func Specs() map[string]*PropSpec {
 		Rules:       []RuleRef{rR21, rR22, rR22d, rR22w, rR22o, rR17, rR24u, rR22e, rR22m, rR14pair, rR25}})
 	add(&PropSpec{ID: "C07", Files: []string{"server/", "raftexample/", "memdb/"},
 		Explanation: "Cluster-mode structure: connection goroutines reach the state machine only by proposing (R23) with globally unique proposal ids (R23u); the rendezvous table is mutex-guarded (R17cb); the Ready loop persists before it sends/publishes and ends in Advance, the apply loop executes before it acknowledges (R16r); blocking or connection-using executors are filtered (R18); nondeterministic inputs to replicated state and exits on the raft path are enumerated (R24, R5: known findings); bounds on the cluster path (R1). Linearizability and agreement at run time are not decided. A proposal is sent once per command (R23p); restart hands every WAL entry to the storage and picks a snapshot the WAL vouches for (R16x).",
-		Rules:       []RuleRef{rR23, rR23u, rR17cb, rR16r, rR18, rR24, rR5, boundsRule("R1c", []string{"server", "raftexample"}, nil, 4), rR23p, rR16x, rR16e, rR16f, rR18c, rR20cs, rR16y, rR23a, rR16o, rR10j, rR23r, rR23c, rR16k}})
+		Rules:       []RuleRef{rR23, rR23u, rR17cb, rR16r, rR18, rR24, rR5, boundsRule("R1c", []string{"server", "raftexample"}, nil, 4), rR23p, rR16x, rR16e, rR16f, rR18c, rR20cs, rR16y, rR23a, rR16o, rR10j, rR23r, rR23c, rR16k, rR16u}})
 	add(&PropSpec{ID: "C08", Files: []string{"raftexample/", "memdb/db.go", "server/", "etcd/"},
 		Explanation: "Durability structure: persist-before-send/publish/acknowledge on every path of the Ready loop (R16r) with the WAL's own durability points underneath (R16w); snapshot constants agree so that a snapshot after a restart cannot panic (R16c); a torn tail is repaired on reopen (R12s); the snapshot encoder's ability to represent stored types and the existence of a restore path are checked and are known findings today (R24). Recovery equality over crash points is not decided. Restart hands every WAL entry to the storage and picks a snapshot the WAL vouches for (R16x); proposal ids are unique across nodes and restarts (R23u).",
 		Rules:       []RuleRef{rR16r, rR16w, rR16c, rR12s, rR24, rR5, rR16x, rR23u, rR24u, rR23, rR16u, rR16y, rR16d, rR16k}})
-	add(&PropSpec{ID: "C09", Files: []string{"memdb/list.go", "memdb/list_struct.go", "memdb/db.go"},
+	add(&PropSpec{ID: "C09", Files: []string{"memdb/list.go", "memdb/list_struct.go", "memdb/db.go", "memdb/dblock.go"},
 		Explanation: "List bookkeeping decided on all paths of the list code: link/unlink events are paired with List.Len updates (R20a); an emptied list is deleted (R20b); accesses and mutations hold the key's write stripe and pops stay in one hold (R15, R15r); LMOVE-style aliasing of the two keys is safe (R25); bounds, replies, identity, error-implies-unchanged (R1, R7, R9, R27); commands registered (R0). Order/multiplicity/index semantics are not decided. Option values an executor parses into a local record are read afterwards (R29). Lazy expiry and deadline removal of the shared keyspace helpers (R21, R22); list element bytes are immutable (R9v).",
-		Rules:       []RuleRef{registeredRule("lpush", "rpush", "lpushx", "rpushx", "lpop", "rpop", "llen", "lindex", "lrange", "lset", "lrem", "ltrim", "lpos", "lmove", "blpop", "brpop"), rR20a, rR20b, rR15, rR15r, rR25, rR1, rR7, rR9, rR27, rR29, rR21, rR22, rR22d, rR22w, rR9v, rR9m, rR32, rR9w, rR14pair, rR20g, rR11e}})
+		Rules:       []RuleRef{registeredRule("lpush", "rpush", "lpushx", "rpushx", "lpop", "rpop", "llen", "lindex", "lrange", "lset", "lrem", "ltrim", "lpos", "lmove", "blpop", "brpop"), rR20a, rR20b, rR15, rR15r, rR25, rR1, rR7, rR9, rR27, rR29, rR21, rR22, rR22d, rR22w, rR9v, rR9m, rR32, rR9w, rR14pair, rR20g, rR11e, rR15m}})
 	add(&PropSpec{ID: "C10", Files: []string{"memdb/hash.go", "memdb/hash_struct.go", "memdb/db.go"},
 		Explanation: "Hash structure decided on all paths of the hash code: absence is decided by map membership, never by an empty-value sentinel (R20c); HINCRBY is overflow-guarded (R19); an emptied hash is deleted (R20b); field/value bytes reach the map unchanged and copies keep empty values non-nil (R9); locks, bounds, replies, error-implies-unchanged (R15, R1, R7, R27); commands registered (R0). Map contents against a model are not decided. Option values an executor parses into a local record are read afterwards (R29). Lazy expiry and deadline removal of the shared keyspace helpers (R21, R22); hash value bytes are immutable (R9v).",
 		Rules:       []RuleRef{registeredRule("hset", "hsetnx", "hget", "hmget", "hgetall", "hkeys", "hvals", "hlen", "hexists", "hstrlen", "hdel", "hincrby", "hincrbyfloat", "hrandfield"), rR20c, rR19, rR20b, rR9, rR15, rR1, rR7, rR27, rR29, rR21, rR22, rR22d, rR22w, rR9v, rR32, rR9w, rR14pair, rR9q, rR11e}})
@@ -93,7 +93,7 @@ func Specs() map[string]*PropSpec {
 		Rules:       []RuleRef{rR17, rR14b, rR3, rR18, rR20n, rR20m, rR8w, rR19g, rR18c, rR32, rR8d, rR19a, rR11c, rR8m, rR8, rR31}})
 	add(&PropSpec{ID: "C20", Files: []string{"server/", "config/", "memdb/"},
 		Explanation: "Database selection structure: no connection-reachable code writes shared Manager state, executors run against the calling connection's own selection, every slot is a distinct MemDb (R23s); the selection store is dominated by exact range tests (R20s, with the bounds prover); cluster mode forces one database after the config file was applied (R20s). Isolation as observed over interleavings is not decided. Every connection state handed out has its database set on the way (R20i).",
-		Rules:       []RuleRef{rR23s, rR20s, rR20i, rR6w, rR20o, rR20q, rR20cs, rR20e, rR20g, rR26}})
+		Rules:       []RuleRef{rR23s, rR20s, rR20i, rR6w, rR20o, rR20q, rR20cs, rR20e, rR20g, rR26, rR12c}})
 	return m
 }
 
